@@ -354,6 +354,15 @@ def concrete_playback(ov, package, meta, harness, extra_args=(), timeout=1800, u
         # printed under a cover it also satisfies, so cover tests are kept as candidates too.
         (cover_tests if cls == "cover" else tests).append(b)
     tests = tests + cover_tests
+    # identical value vectors get identical test names: keep each name once
+    uniq, seen_names = [], set()
+    for b in tests:
+        m = re.search(r"fn (kani_concrete_playback_\w+)", b)
+        nm = m.group(1) if m else b
+        if nm not in seen_names:
+            seen_names.add(nm)
+            uniq.append(b)
+    tests = uniq
     if not tests:
         return None, p.stdout[-2000:]
     return "\n".join(tests[:8]), None
